@@ -24,6 +24,12 @@ const (
 	maxClockSkew = 900 * time.Second
 )
 
+// cachedRevocationStatus is a revocation status together with the instant at which it must not be used anymore
+type cachedRevocationStatus struct {
+	status    core.RevocationStatus
+	expiresAt time.Time
+}
+
 type OCSPRevocationChecker struct {
 	ocspConfig *config.OCSPConfig
 	logger     *zap.Logger
@@ -82,7 +88,10 @@ func (c *OCSPRevocationChecker) IsRevoked(clientCertificate *x509.Certificate, v
 			}
 			evictionTime := c.calculateEvictionTime(ocspResponse)
 			if evictionTime > 0 {
-				c.cache.Add(cacheKey, evictionTime, revocationStatus)
+				c.cache.Add(cacheKey, evictionTime, cachedRevocationStatus{
+					status:    revocationStatus,
+					expiresAt: time.Now().Add(evictionTime),
+				})
 			}
 			return &revocationStatus, nil
 		}
@@ -207,7 +216,13 @@ func (c *OCSPRevocationChecker) tryGetResponseFromCache(cacheKey string) (*core.
 	// Let's retrieve the item from the cache.
 	res, err := c.cache.Value(cacheKey)
 	if err == nil {
-		response := res.Data().(core.RevocationStatus)
+		cached := res.Data().(cachedRevocationStatus)
+		//the cache keeps an item alive as long as it is read; the lifetime of a response is absolute
+		if !time.Now().Before(cached.expiresAt) {
+			_, _ = c.cache.Delete(cacheKey)
+			return nil, errors.New("cached ocsp response is expired")
+		}
+		response := cached.status
 		return &response, nil
 	} else {
 		return nil, err
